@@ -21,6 +21,9 @@ CHECKS = {
  "C18": dict(level="model_checking", technique=EV + "; metadata of the returned state and of the kept copies compared field by field with what the step actually did",
              text="Claimed in part. Step lemma over 14 queries (typed argument, second-namespace command with attributes, five value types + opaque object, failing command, three trailing file names, link argument, sub-evaluation) with symbolic predecessor data, capitalised attribute and volatility, with/without store_key: canonical query, status/is_error/get() agreement, type identifier and data characteristics of the actual value, last command + namespace + version, parent query, argument/sub-queries, file name/extension/mimetype, attribute persistence, and agreement of the MemoryCache and MemoryStore copies; kernels: mimetype over every known extension, Metadata wrapper consistency.",
              design="§4 C18"),
+ "C10": dict(level="model_checking", technique=EV + "; plus clone-isolation kernels over MemoryCache with symbolic list/dict data and over vars_clone with symbolic nested defaults",
+             text="(a) two real evaluations with in-place mutation of every variable value by a command and by the caller in between: the second sees exactly the configured defaults (symbolic list/dict/int) and liquer.state._vars is unchanged; (b) step lemma over 6 queries: variables set by the action and inherited from the predecessor are exactly the result's variables, the predecessor's variables reach the action and relative links; (c) an in-place mutator leaves the predecessor object unchanged; (d) MemoryCache serves the stored value regardless of later mutation of the stored state, its metadata or served states (List[int] len<=3, Dict[str,int]).",
+             design="§4 C10"),
  "C06": dict(level="model_checking", technique=EV + "; plus State.get kernel over symbolic error logs",
              text="(a) an error predecessor state propagates: error result, get() raises, no command executed, nothing cached; (b) each failure kind (command raises, unknown command, unconvertible/missing/surplus argument, failing absolute/relative link, missing resource, unconvertible symbolic extra argument) yields an error state or a raised evaluation, never a value; (c) the failure carries the query text and the offset of the failing action/link argument as positioned by the real parser; (d) State.get re-raises with the last error entry's position and query for every log of length <=2 (thorough 3).",
              design="§4 C06"),
